@@ -1,6 +1,6 @@
 (* One entry point for the correspondence harness: run_line parses a case, runs the model, prints the answer. *)
 From Coq Require Import List Ascii String Bool Arith ZArith.
-From SV Require Import Lib.Str Lib.Sexp Model.Types Model.Naming Model.Discover Model.Api Model.Back Model.Layout Model.FrontSmall Driver.Codec Driver.ApiCodec.
+From SV Require Import Lib.Str Lib.Sexp Model.Types Model.Naming Model.Discover Model.Api Model.Back Model.Layout Model.FrontSmall Model.Doc Driver.Codec Driver.ApiCodec.
 Import ListNotations.
 
 Definition bad : sexp := L [T"bad-case"].
@@ -16,6 +16,19 @@ Definition run_types_roundtrip (t : ty) : sexp :=
 
 Definition run_types_pair (a b : ty) : sexp :=
   L [of_bool (py_eq a b); of_bool (py_eq b a); of_bool (hk_eqb (hkey a) (hkey b))].
+
+Fixpoint gnode_of_sx_f (fuel : nat) (x : sexp) : option gnode :=
+  match fuel with O => None | S fu =>
+  match x with
+  | L [A n; A k; d; L ms] =>
+    let kind := if tag_is "module" k then Some GModule else if tag_is "class" k then Some GClass
+                else if tag_is "function" k then Some GFunction else if tag_is "attribute" k then Some GAttribute else None in
+    match kind, sx_opt sx_str d, sx_list (gnode_of_sx_f fu) ms with
+    | Some k', Some d', Some ms' => Some (GNode n k' d' ms')
+    | _, _, _ => None
+    end
+  | _ => None
+  end end.
 
 Definition run_case (x : sexp) : sexp :=
   match x with
@@ -85,6 +98,16 @@ Definition run_case (x : sexp) : sexp :=
              of_list (fun r : result => L [A (r_id r); A (r_name r); of_opt (fun t => sx_of_jv (to_dict t)) (r_type r)]) (fst rr);
              of_nat (snd rr)]
         | _, _, _, _, _ => bad end
+      | _ => bad end
+    else if tag_is "doc_cache" cmd then
+      match args with
+      | [tree; L qs] =>
+        match gnode_of_sx_f (sexp_depth tree) tree, sx_list sx_str qs with
+        | Some root, Some qs' =>
+          let render := fun (r : res (list (option str))) =>
+            match r with Ok ds => L [T"ok"; of_list (of_opt A) ds] | Err e => L [T"err"; sx_of_err e] end in
+          L [render (cached_run root init_cstate qs'); render (uncached_run root qs')]
+        | _, _ => bad end
       | _ => bad end
     else if tag_is "container" cmd then
       match args with
